@@ -685,11 +685,39 @@ Definition free_name (used : list string) (orig : string) : option string :=
 
 Definition smap_find (k : string) (m : list (string * string)) : option string := assoc k m.
 
+(* the loop over the unit children of u in transferUnitsRenamingIfRequired; rec = the recursive call *)
+Definition transfer_result := (ust * bool * list (string * string) * string)%type.
+
+Fixpoint transfer_kids (rec : units -> ust -> fres transfer_result) (fx : flat_fixes) (k i : nat) (u : units) (s : ust)
+  : fres (units * ust) :=
+  match k with
+  | O => FOk (u, s)
+  | S k' =>
+      match nth_error (u_defs u) i with
+      | None => FOk (u, s)
+      | Some d =>
+          let reference := uc_ref d in
+          if negb (str_is_empty reference) && negb (is_std_name reference) && has_units reference (us_S s)
+          then match find_units reference (us_S s) with
+               | None => FCrash
+               | Some src =>
+                   let (child, st1) := clone_units src (us_st s) in
+                   do r <- rec child (us_with_st st1 s);
+                   let '(s1, _, changed, fname) := r in
+                   let newref := if fx_ref fx
+                                 then match smap_find reference changed with Some x => x | None => reference end
+                                 else fname in
+                   transfer_kids rec fx k' (S i) (u_set_ref i newref u) (us_log [u_own u] s1)
+               end
+          else transfer_kids rec fx k' (S i) u s
+      end
+  end.
+
 (* importer.cpp: transferUnitsRenamingIfRequired(sourceModel = S, targetModel = T, units = u, component).
    orphan = true: u is a parent-less clone; false: u is the first units of S with its name.
    Result: state, "u was added to T", changedNames, the name of u afterwards. *)
 Fixpoint transfer (fuel : nat) (fx : flat_fixes) (libs : list model) (orphan : bool) (u : units) (s : ust)
-  : fres (ust * bool * list (string * string) * string) :=
+  : fres transfer_result :=
   match fuel with
   | O => FFuel
   | S f =>
@@ -697,29 +725,7 @@ Fixpoint transfer (fuel : nat) (fx : flat_fixes) (libs : list model) (orphan : b
       do target <- models_equivalent_units libs (us_T s) home (u_name u) (us_T s);
       match target with
       | None =>
-          do r <- (fix kids (k i : nat) (u : units) (s : ust) {struct k} : fres (units * ust) :=
-                     match k with
-                     | O => FOk (u, s)
-                     | S k' =>
-                         match nth_error (u_defs u) i with
-                         | None => FOk (u, s)
-                         | Some d =>
-                             let reference := uc_ref d in
-                             if negb (str_is_empty reference) && negb (is_std_name reference) && has_units reference (us_S s)
-                             then match find_units reference (us_S s) with
-                                  | None => FCrash
-                                  | Some src =>
-                                      let (child, st1) := clone_units src (us_st s) in
-                                      do r <- transfer f fx libs true child (us_with_st st1 s);
-                                      let '(s1, _, changed, fname) := r in
-                                      let newref := if fx_ref fx
-                                                    then match smap_find reference changed with Some x => x | None => reference end
-                                                    else fname in
-                                      kids k' (S i) (u_set_ref i newref u) (us_log [u_own u] s1)
-                                  end
-                             else kids k' (S i) u s
-                         end
-                     end) (List.length (u_defs u)) 0 u s;
+          do r <- transfer_kids (transfer f fx libs true) fx (List.length (u_defs u)) 0 u s;
           let '(u1, s1) := r in
           let original := u_name u1 in
           match free_name (map u_name (us_T s1)) original with
@@ -749,6 +755,47 @@ Definition upd_loc (l : loc) (f : units -> units) (s : ust) : ust :=
   | LS n => match find_units n (us_S s) with Some u => us_log [u_own u] (us_with_S (update_units n f (us_S s)) (us_So s) s) | None => s end
   end.
 
+(* the loop over the unit children in retrieveUnitsDependencies; the three recursive calls are parameters *)
+Fixpoint retrieve_go (rec_flatten : nat -> ust -> fres ust) (rec_transfer : units -> ust -> fres transfer_result)
+         (rec_retrieve : loc -> ust -> fres ust) (fx : flat_fixes) (l : loc) (k i : nat) (s : ust) : fres ust :=
+  match k with
+  | O => FOk s
+  | S k' =>
+      match get_loc l s with
+      | None => FCrash
+      | Some u =>
+          match nth_error (u_defs u) i with
+          | None => FOk s
+          | Some d =>
+              let reference := uc_ref d in
+              if negb (str_is_empty reference) && negb (is_std_name reference) && has_units reference (us_S s)
+              then match find_units reference (us_S s) with
+                   | None => FCrash
+                   | Some child =>
+                       match u_imp child with
+                       | Some _ =>
+                           let idx := List.length (us_T s) in
+                           let s1 := us_log [us_So s; us_To s]
+                                       (us_with_S (remove_units reference (us_S s)) (us_So s) (us_with_T (us_T s ++ [child]) s)) in
+                           do s2 <- rec_flatten idx s1;
+                           retrieve_go rec_flatten rec_transfer rec_retrieve fx l k' (S i) s2
+                       | None =>
+                           do r <- rec_transfer child s;
+                           let '(s1, moved, changed, fname) := r in
+                           let newref := if fx_ref fx
+                                         then match smap_find reference changed with Some x => x | None => reference end
+                                         else fname in
+                           let s2 := upd_loc l (u_set_ref i newref) s1 in
+                           let l' := if (moved : bool) then LT (List.length (us_T s1) - 1) else LS reference in
+                           do s3 <- rec_retrieve l' s2;
+                           retrieve_go rec_flatten rec_transfer rec_retrieve fx l k' (S i) s3
+                       end
+                   end
+              else retrieve_go rec_flatten rec_transfer rec_retrieve fx l k' (S i) s
+          end
+      end
+  end.
+
 (* importer.cpp: retrieveUnitsDependencies(flatModel = T, model = S, u at l, component) and
    flattenUnitsImports(flatModel = T, units = T[idx], idx, component) *)
 Fixpoint retrieve (fuel : nat) (fx : flat_fixes) (libs : list model) (l : loc) (s : ust) : fres ust :=
@@ -758,44 +805,8 @@ Fixpoint retrieve (fuel : nat) (fx : flat_fixes) (libs : list model) (l : loc) (
       match get_loc l s with
       | None => FCrash
       | Some u0 =>
-          (fix go (k i : nat) (s : ust) {struct k} : fres ust :=
-             match k with
-             | O => FOk s
-             | S k' =>
-                 match get_loc l s with
-                 | None => FCrash
-                 | Some u =>
-                     match nth_error (u_defs u) i with
-                     | None => FOk s
-                     | Some d =>
-                         let reference := uc_ref d in
-                         if negb (str_is_empty reference) && negb (is_std_name reference) && has_units reference (us_S s)
-                         then match find_units reference (us_S s) with
-                              | None => FCrash
-                              | Some child =>
-                                  match u_imp child with
-                                  | Some _ =>
-                                      let idx := List.length (us_T s) in
-                                      let s1 := us_log [us_So s; us_To s]
-                                                  (us_with_S (remove_units reference (us_S s)) (us_So s) (us_with_T (us_T s ++ [child]) s)) in
-                                      do s2 <- flatten_units_imports f fx libs idx s1;
-                                      go k' (S i) s2
-                                  | None =>
-                                      do r <- transfer f fx libs false child s;
-                                      let '(s1, moved, changed, fname) := r in
-                                      let newref := if fx_ref fx
-                                                    then match smap_find reference changed with Some x => x | None => reference end
-                                                    else fname in
-                                      let s2 := upd_loc l (u_set_ref i newref) s1 in
-                                      let l' := if moved then LT (List.length (us_T s1) - 1) else LS reference in
-                                      do s3 <- retrieve f fx libs l' s2;
-                                      go k' (S i) s3
-                                  end
-                              end
-                         else go k' (S i) s
-                     end
-                 end
-             end) (List.length (u_defs u0)) 0 s
+          retrieve_go (flatten_units_imports f fx libs) (transfer f fx libs false) (retrieve f fx libs) fx l
+                      (List.length (u_defs u0)) 0 s
       end
   end
 with flatten_units_imports (fuel : nat) (fx : flat_fixes) (libs : list model) (idx : nat) (s : ust) : fres ust :=
@@ -1075,6 +1086,13 @@ Definition flatten_component (fuel : nat) (fx : flat_fixes) (libs : list model) 
       end
   end.
 
+(* the loop over the children in flattenComponentImports; rec = the recursive call *)
+Fixpoint fci_go (rec : path -> fstate -> fres fstate) (p : path) (k i : nat) (fs : fstate) : fres fstate :=
+  match k with
+  | O => FOk fs
+  | S k' => do fs' <- rec (p ++ [i]) fs; fci_go rec p k' (S i) fs'
+  end.
+
 (* importer.cpp: flattenComponentImports *)
 Fixpoint flatten_component_imports (fuel : nat) (fx : flat_fixes) (libs : list model) (p : path) (fs : fstate) : fres fstate :=
   match fuel with
@@ -1083,12 +1101,7 @@ Fixpoint flatten_component_imports (fuel : nat) (fx : flat_fixes) (libs : list m
       do fs1 <- flatten_component fuel fx libs p fs;
       match comp_at (f_comps fs1) p with
       | None => FCrash
-      | Some c =>
-          (fix go (k i : nat) (fs : fstate) {struct k} : fres fstate :=
-             match k with
-             | O => FOk fs
-             | S k' => do fs' <- flatten_component_imports f fx libs (p ++ [i]) fs; go k' (S i) fs'
-             end) (List.length (c_kids c)) 0 fs1
+      | Some c => fci_go (flatten_component_imports f fx libs) p (List.length (c_kids c)) 0 fs1
       end
   end.
 
